@@ -343,11 +343,7 @@ func reference(h string, a []string) exp {
 	}
 	switch h {
 	case "coalesce":
-		for _, s := range a {
-			if isWSOnly(s) {
-				return abstain("coalesce: blank argument (non-empty vs truthy not defined)")
-			}
-		}
+		// "choosing the first non-empty result": a blank (white-space only) result is not empty
 		for _, s := range a {
 			if s != "" {
 				return exact(s)
